@@ -5,13 +5,13 @@ SPEC = {
     "streams": [
         {"name": "pool", "cmd": "pool",
          "args": {"quick": ["-cases", "800", "-exh-np", "2", "-exh-nb", "2", "-exh-len", "2"],
-                  "thorough": ["-cases", "20000", "-exh-np", "3", "-exh-nb", "3", "-exh-len", "2"]},
+                  "thorough": ["-cases", "8000", "-exh-np", "3", "-exh-nb", "3", "-exh-len", "2"]},
          "search_args": ["-cases", "30000", "-exh-np", "2", "-exh-nb", "2", "-exh-len", "2"]},
         {"name": "verify", "cmd": "pool",
-         "args": {"quick": ["-mode", "verify", "-cases", "1200"], "thorough": ["-mode", "verify", "-cases", "20000"]},
+         "args": {"quick": ["-mode", "verify", "-cases", "1200"], "thorough": ["-mode", "verify", "-cases", "10000"]},
          "search_args": ["-mode", "verify", "-cases", "20000"]},
         {"name": "app", "cmd": "pool",
-         "args": {"quick": ["-mode", "app", "-cases", "60", "-blocks", "36"], "thorough": ["-mode", "app", "-cases", "1500", "-blocks", "48"]},
+         "args": {"quick": ["-mode", "app", "-cases", "60", "-blocks", "36"], "thorough": ["-mode", "app", "-cases", "800", "-blocks", "48"]},
          "search_args": ["-mode", "app", "-cases", "600", "-blocks", "40"]},
         {"name": "evidence", "cmd": "pool",
          "args": {"quick": ["-mode", "evidence", "-cases", "800"], "thorough": ["-mode", "evidence", "-cases", "20000"]},
@@ -26,6 +26,7 @@ SPEC = {
         "harness/cmd/pool -mode app + harness/internal/muxdrv (drives the real roothash application behind the real ABCI multiplexer with signed ExecutorCommit transactions; reads runtime state, round-timeout index and events)",
         "harness/cmd/pool -mode evidence (signed executor-commitment / proposal pairs through roothash.Evidence.ValidateBasic; error strings mapped to the model's reasons) and the evidence transactions of the app stream (submitEvidence through the mux; evidence-hash store read back from state)",
         "abstracted in Roothash/Evidence.v: signatures are booleans measured on the real objects; Evidence.Hash()/round is an opaque store key; slashing is reduced to 'the accused key is a registered node'",
+        "Roothash/App.v now carries the block header at the level (round, type, state root, IO root, previous hash, messages hash), LivenessStatistics and the good/bad node lists of the last normal round; the app stream compares all of them after every block",
         "abstracted in Roothash/App.v: one runtime; block hashes and the state root of a commitment header are tables measured on the implementation; the elected committee is an input of the block in which it changes; liveness statistics, slashing, runtime messages, round results are not modelled; the round-timeout index is identified with NextTimeout (the harness checks they agree after every block)",
     ],
     "assumptions": [
